@@ -427,18 +427,32 @@ func runC02(c *Ctx) {
 	mapped := map[string]bool{"reg": true, "hardlink": true, "chunk": true, "toc": true} // types without a mode bit
 	modeBits := map[string]bool{}
 	if f := c.mustFn("estargz", "(fileInfo).Mode"); f != nil {
-		eachInstr(f, func(i ssa.Instruction) {
-			if b, ok := i.(*ssa.BinOp); ok && b.Op == token.EQL {
-				if s, ok := constString(b.Y); ok {
-					mapped[s] = true
-				}
+		// Mode itself and the same-package helpers it computes the type bits with
+		fset := []*ssa.Function{f}
+		for _, ci := range callsIn(f, func(string, ssa.CallInstruction) bool { return true }) {
+			if t := staticFn(ci); t != nil && t.Pkg == f.Pkg && len(t.Blocks) > 0 && t != f {
+				fset = append(fset, t)
 			}
-			if b, ok := i.(*ssa.BinOp); ok && b.Op == token.OR {
-				if n, ok := constInt(b.Y); ok {
-					modeBits[fmt.Sprintf("%#x", uint32(n))] = true
+		}
+		for _, g := range fset {
+			eachInstr(g, func(i ssa.Instruction) {
+				if b, ok := i.(*ssa.BinOp); ok && b.Op == token.EQL {
+					if s, ok := constString(b.Y); ok {
+						mapped[s] = true
+					}
 				}
-			}
-		})
+				if b, ok := i.(*ssa.BinOp); ok && b.Op == token.OR {
+					if n, ok := constInt(b.Y); ok {
+						modeBits[fmt.Sprintf("%#x", uint32(n))] = true
+					}
+				}
+				if r, ok := i.(*ssa.Return); ok && g != f && len(r.Results) == 1 && strings.HasSuffix(r.Results[0].Type().String(), "FileMode") {
+					if n, ok := constInt(r.Results[0]); ok && n != 0 {
+						modeBits[fmt.Sprintf("%#x", uint32(n))] = true
+					}
+				}
+			})
+		}
 	}
 	var missing []string
 	for t := range emitted {
